@@ -401,6 +401,8 @@ var c18Wellformed = []string{
 	`const K = 1 + 2 const J = K text ( global ) T { poryswitch ( K ) { A : "a$" B { braille"b" } _ : format ( "c d" , numLines = 3 , maxLineLength = 50 ) } } raw ` + "`x y`",
 	`movement M { walk_up * 3 poryswitch ( K ) { A : walk_left _ { walk_right * 2 step_end } } face_down } mart ( global ) Z { ITEM_A K poryswitch ( K ) { A { ITEM_B } _ : ITEM_NONE } }`,
 	`script S { cmd ( 1 , moves ( poryswitch ( K ) { A : walk_up B { walk_down * 2 } } ) ) } movement M { poryswitch ( K ) { A : walk_up } } mart Z { poryswitch ( K ) { A { ITEM_B } } } text T { poryswitch ( K ) { A : "a$" } }`,
+	`script S { switch ( var ( V ) ) { case 1 : break foo case 2 : switch ( var ( W ) ) { case 3 : a case 4 : b } } } script S2 { while ( flag ( A ) ) { c break d } if ( flag ( B ) ) { e } else { f } do { continue } while ( flag ( A ) ) }`,
+	`const P = ( BASE + 1 ) const Q = ITEM_A ITEM_B mart M { P ITEM_C Q } movement V { Q * 2 P } script S3 { switch ( var ( P ) ) { case Q : cmd ( P , Q ) } }`,
 	`mapscripts M { T1 : L T2 { cmd if ( flag ( A ) ) { end } } T3 [ VAR_A , 1 : L2 VAR_B , K { cmd ( "t$" ) } ] }`,
 }
 
